@@ -135,7 +135,8 @@ def run_tlc_replay(run, name, module, cfg_kwargs, prop, workers=4, threads=8, ti
     return tlc, summ
 
 
-def run_record_validate(run, name, driver, trace_module, prop, site, rounds, shards=8, timeout=1500, extra_args=()):
+def run_record_validate(run, name, driver, trace_module, prop, site, rounds, shards=8, timeout=1500, extra_args=(), focus=None,
+                        unit="reset"):
     """impl -> spec: `rv record --driver ...` writes ndjson traces (one per shard, different seeds); TLC validates each
     against `trace_module`.  A rejected trace becomes a violation whose replay file is the trace prefix."""
     import concurrent.futures
@@ -146,8 +147,8 @@ def run_record_validate(run, name, driver, trace_module, prop, site, rounds, sha
 
     def one(shard):
         trace = os.path.join(d, "%s-%d.ndjson" % (name, shard))
-        cmd = [RV, "record", "--driver", driver, "--out", trace, "--rounds", str(rounds),
-               "--seed", str(run.seed * 1000 + shard)] + list(extra_args)
+        cmd = [RV, "record", "--driver", driver, "--out", trace, "--rounds", str(rounds), "--shard", str(shard), "--shards", str(shards),
+               "--seed", str(run.seed * 1000 + shard), "--corpus-seed", str(run.seed), "--tier", run.tier] + list(extra_args)
         r = subprocess.run(cmd, capture_output=True, text=True, env=rv_env(), timeout=timeout)
         m = re.search(r"RV-RECORDED (\d+)", r.stdout)
         if r.returncode != 0 or not m:
@@ -155,6 +156,7 @@ def run_record_validate(run, name, driver, trace_module, prop, site, rounds, sha
         events = int(m.group(1))
         env = tlc_env()
         env["TRACE"] = trace
+        env["FOCUS"] = focus or ""
         env["VERIF_GEN"] = os.path.join(WORK, "gen")
         meta = os.path.join(d, "meta-%s-%d" % (name, shard))
         r = subprocess.run(["timeout", str(timeout), "tlc", "-workers", "1", "-noGenerateSpecTE", "-metadir", meta, "-cleanup",
@@ -185,7 +187,7 @@ def run_record_validate(run, name, driver, trace_module, prop, site, rounds, sha
         summ["compared"] += r["consumed"]
         states += r["states"]; trans += r["transitions"]
         lines = open(r["trace"], encoding="utf-8").read().split("\n")
-        rounds_n = sum(1 for l in lines if '"ev":"reset"' in l)
+        rounds_n = sum(1 for l in lines if l and (('"ev":"reset"' in l) == (unit == "reset")))
         summ["behaviours"] += rounds_n
         summ["nontrivial"] += rounds_n
         if not summ["samples"] and len(lines) > 3:
@@ -194,7 +196,7 @@ def run_record_validate(run, name, driver, trace_module, prop, site, rounds, sha
             k = r["consumed"] + 1          # 1-based line that was not accepted
             # cut the replay at the enclosing round
             start = k - 1
-            while start > 0 and '"ev":"reset"' not in lines[start]:
+            while unit == "reset" and start > 0 and '"ev":"reset"' not in lines[start]:
                 start -= 1
             os.makedirs(run.replay_dir, exist_ok=True)
             rp = os.path.join(run.replay_dir, "%s-trace-%d.ndjson" % (name, len(summ["violations"])))
